@@ -68,6 +68,19 @@ def unknown_child(rng, C):
     u = ET.Element(rng.choice(UNKNOWN))
     if C.__name__ in RENAMED_WHERE_DECLARED.get(u.tag, ()):
         u.tag = "FOO"
+    r0 = rng.random()
+    if r0 < 0.08 and len(C.spec):
+        # a known child's name with a blank after it is not that child's tag (the tokenizer's tag pattern admits blanks)
+        u.tag = rng.choice(list(C.spec)).upper() + " "
+        u.text = "2000"
+        return u
+    if r0 < 0.16:
+        # a vendor aggregate that wraps a copy of the enclosing aggregate's own tag, with something else in between
+        u = ET.Element("INTU.ORIG")
+        inner = ET.SubElement(ET.SubElement(u, "WRAP"), C.__name__)
+        ET.SubElement(inner, "CODE").text = "1"
+        ET.SubElement(u, "AFTER").text = "x"
+        return u
     r = rng.random()
     if any(ch not in "ABCDEFGHIJKLMNOPQRSTUVWXYZ0123456789._" for ch in u.tag):
         # not an OFX tag at all (outside A-Z 0-9 . _): as a data element it has always been let through; as an
@@ -100,19 +113,20 @@ def gen_insertions(rng):
 
 
 def enc_tree(e):
-    """the harness ships trees as XML text; OFX tags that are not XML names (leading digit, '.', ...) travel under a prefix"""
+    """the harness ships trees as XML text; OFX tags that are not XML names (leading digit or '.', blanks ...) travel as hex"""
+    import re as _re
     t = copy.deepcopy(e)
     for n in t.iter():
-        if not (n.tag[:1].isalpha() or n.tag[:1] == "_"):
-            n.tag = "X__" + n.tag
+        if not _re.fullmatch(r"[A-Za-z_][A-Za-z0-9._-]*", n.tag) or n.tag.startswith("XH__"):
+            n.tag = "XH__" + n.tag.encode("utf_8").hex()
     return ET.tostring(t).decode()
 
 
 def dec_tree(text):
     t = ET.fromstring(text)
     for n in t.iter():
-        if n.tag.startswith("X__"):
-            n.tag = n.tag[3:]
+        if n.tag.startswith("XH__"):
+            n.tag = bytes.fromhex(n.tag[4:]).decode("utf_8")
     return t
 
 
@@ -443,7 +457,13 @@ def call_flat_access(it, fn, a):
                 problems.append(f"{attr}: flat read is stale after the value at {'.'.join(path)} changed")
         except Exception:
             pass
-    for bad in ("nosuchname", "_private", "zzz"):
+    # undefined names - among them names that ARE attributes of the Python values stored somewhere below (str, Decimal,
+    # datetime, bool, list): an instance does not have them unless an aggregate below defines them
+    defined = set(names) | set(dir(type(x)))
+    for y in [h for _, h, _ in desc]:
+        defined |= set(dir(type(y)))
+    scalar_names = ["isoformat", "year", "tzinfo", "quantize", "upper", "encode", "real", "strip", "as_tuple", "bit_length", "utcoffset", "casefold"]
+    for bad in ["nosuchname", "_private", "zzz"] + [n for n in scalar_names if n not in defined]:
         try:
             if hasattr(x, bad):
                 problems.append(f"hasattr({bad}) is True")
